@@ -832,7 +832,7 @@ def run(ctx):
         k = rng.randrange(len(form))
         pad = edge - rng.randint(0, 160) + rng.choice((0, 0, 40, 200))
         form[k]['content'] = list(bytes(form[k]['content']) + b'x' * pad + random_content(rng, bnd, 3))
-        if bytes(form[k]['ctype']) == b'application/json':
+        if form[k]['ctype'] == list(b'application/json'):
             form[k]['ctype'] = list(b'application/octet-stream')
         env = random_env(rng, form, bnd)
         if not encodable(form, env):
